@@ -389,7 +389,7 @@ func runCheck(id, tier string, workersOverride int, keep bool) int {
 	}
 	sort.Strings(keys)
 	nviol := 0
-	var knownHit []string
+	knownHit := []string{}
 	os.MkdirAll(filepath.Join(verifRoot, "replays", id), 0755)
 	for _, k := range keys {
 		v := viol[k]
